@@ -11,6 +11,19 @@ import (
 	"time"
 )
 
+// A run that exceeds its time budget is abandoned and reported as undecided
+// (which fails the check): a change that makes the analysis diverge must not
+// hang the caller.
+type budgetExceeded struct{}
+
+var globalDeadline time.Time
+
+func checkBudget() {
+	if !globalDeadline.IsZero() && time.Now().After(globalDeadline) {
+		panic(budgetExceeded{})
+	}
+}
+
 func main() {
 	repo := flag.String("repo", "/repo", "repository to analyse")
 	verif := flag.String("verif", "", "verification directory (default: parent of the binary's dir)")
@@ -77,6 +90,13 @@ func main() {
 		rep.Explanation = "the repository could not be loaded/type-checked; nothing was analysed"
 		os.Exit(rep.finish(*verif, *tier, seed, start, nil, *evidence, err))
 	}
+	budget := 10 * time.Minute
+	if s := os.Getenv("STACKCHECK_BUDGET_SEC"); s != "" {
+		if n, err := strconv.Atoi(s); err == nil && n > 0 {
+			budget = time.Duration(n) * time.Second
+		}
+	}
+	globalDeadline = time.Now().Add(budget)
 	ctx := newCtx(p, *prop, *tier)
 	ctx.rep.Level = spec.Level
 	ctx.rep.Explanation = spec.Explanation
@@ -85,6 +105,11 @@ func main() {
 	func() {
 		defer func() {
 			if r := recover(); r != nil {
+				if _, isB := r.(budgetExceeded); isB {
+					globalDeadline = time.Time{}
+					ctx.rep.undecided("R-BUDGET", "stackcheck", "time budget", "?", "the analysis did not finish within its time budget (normally well under a minute): the change makes the fact/precondition fixpoint diverge; nothing can be concluded")
+					return
+				}
 				ctx.rep.bad("INFRA", "stackcheck", "panic", "?", fmt.Sprint("analyser panic: ", r))
 			}
 		}()
